@@ -270,6 +270,36 @@ func locksMain(args []string) {
 			return errClass(lb.ab.AddLeaf(newCountCtx(k), &v))
 		})
 	}
+	// A2. a writer that arrives in the middle of a read walk: the k-th inspection of the context starts a
+	// proposal in another goroutine and gives it time to reach its locks (no hook needed: the walks inspect
+	// the context once per visited ancestor)
+	for _, k := range []int{1, 2, chain / 2, chain} {
+		for _, kind := range []string{"balance", "history"} {
+			k, kind := k, kind
+			r.scenario(kind+".writer-midwalk", k, func(lb *lockBook) string {
+				var wg sync.WaitGroup
+				ctx := &hookCtx{Context: context.Background(), at: k, fire: func() {
+					for j := 0; j < 2; j++ {
+						wg.Add(1)
+						go func() {
+							defer wg.Done()
+							t := lb.newTrx()
+							_, _ = lb.ab.CreateLeaf(context.Background(), &t)
+						}()
+					}
+					time.Sleep(3 * time.Millisecond)
+				}}
+				var err error
+				if kind == "balance" {
+					_, err = lb.ab.CalculateBalance(ctx, lb.a.Address())
+				} else {
+					_, err = lb.ab.ReadDAGTransactionsByAddress(ctx, lb.a.Address())
+				}
+				wg.Wait()
+				return errClass(err)
+			})
+		}
+	}
 	// B. truncation with the cut found after d ancestors (early exit of the first walk), with and
 	// without cancellation inside the three walks
 	for d := 1; d <= chain+2; d++ {
